@@ -8,7 +8,8 @@ import datetime as dt
 from hypothesis import strategies as st
 
 from . import REPO  # noqa: F401
-from .config import BUILTIN_SOILS, CAL_CROPS, CROPS, GDD_CROPS, SOIL_LAYERS, crop_params, build_soil
+from .config import BUILTIN_SOILS, CAL_CROPS, CROPS, GDD_CROPS, SOIL_LAYERS, build_soil
+from .config import PRISTINE_CROP_PARAMS as crop_params  # snapshot: generation never depends on catalogue state a run may have altered
 from .refsoil import deepen, r2
 
 # ------------------------------------------------------------------------------------------------
@@ -589,4 +590,38 @@ def configs(draw, P=None):
     r = draw(st.integers(0, 9))
     if r >= 8 and P.get("reuse", True):
         cfg["reuse"] = r - 7
+    # objects merely CONSTRUCTED earlier in the same process (a user building several configurations):
+    # the same catalogue crop with an enlarged envelope, some catalogue soil, another strategy. They are
+    # never handed to the model and must not influence it (shared catalogue entries, mutable defaults)
+    if flag(draw, P.get("p_prior", 0.3)):
+        cfg["prior"] = draw(priors(cfg))
     return cfg
+
+
+PRIOR_BUMPS = {
+    "Zmax": lambda v: round(float(v) + 0.6, 2), "Zmin": lambda v: round(float(v) + 0.15, 2),
+    "CCx": lambda v: min(0.99, round(float(v) + 0.07, 2)), "HI0": lambda v: round(min(0.95, float(v) * 1.25), 3),
+    "dHI0": lambda v: float(v) + 15.0, "WP": lambda v: float(v) + 6.0, "Tbase": lambda v: float(v) - 3.0,
+    "Tupp": lambda v: float(v) + 5.0, "Kcb": lambda v: round(float(v) + 0.2, 2), "PlantPop": lambda v: int(float(v) * 2),
+    "Aer": lambda v: float(v) + 5.0, "exc": lambda v: float(v) + 20.0,
+}
+
+
+@st.composite
+def priors(draw, cfg):
+    out = []
+    name = cfg["crop"]["name"]
+    cp = crop_params[name]
+    keys = sorted(k for k in PRIOR_BUMPS if k in cp)
+    chosen = draw(st.lists(st.sampled_from(keys), min_size=1, max_size=5, unique=True))
+    out.append({"crop": {"name": name, "planting": cfg["crop"]["planting"], "harvest": None,
+                         "overrides": {k: PRIOR_BUMPS[k](cp[k]) for k in sorted(chosen)}}})
+    if draw(st.booleans()):
+        t = draw(st.sampled_from(BUILTIN_SOILS))
+        args = {}
+        if draw(st.booleans()):
+            args["dz"] = draw(dz_lists())
+        out.append({"soil": {"type": t, "args": args}})
+    if draw(st.integers(0, 3)) == 0:
+        out.append({"irr": {"method": 1, "SMT": [30.0, 40.0, 50.0, 60.0], "MaxIrr": 15.0, "MaxIrrSeason": 90.0}})
+    return out
